@@ -59,12 +59,12 @@ def poll_result(p):
     return res.discr, res
 
 
-def run_action(run, ex, W, name, method='execute', w0=None, prep=None, allow_havoc=(), world_extra=None, start_world=None, pc=None, tag=''):
+def run_action(run, ex, W, name, method='execute', w0=None, prep=None, allow_havoc=(), world_extra=None, start_world=None, pc=None, tag='', me=None):
     spec = ACTIONS[name]
     f = ex.find(rf'(^|::){spec["mod"]}::<impl at [^>]*>::{method}$')
     ex.const_params = {k: z3.BoolVal(v) for k, v in spec.get('consts', {}).items()}
     w0 = w0 or initial_world()
-    me = Obj(spec['ty'] if not tag else spec['ty']); state = Obj('S', kind='cell')
+    me = me if me is not None else Obj(spec['ty']); state = Obj('S', kind='cell')
     me.attrs['tag'] = tag
     if prep:
         prep(me)
@@ -135,3 +135,71 @@ def state_inv(w, a):
     """pointwise chain-state invariant used by the inductive-step obligations (established by InitBridgeAccount, preserved by every action)"""
     return z3.And(z3.Implies(z3.Select(w['bridge_withdrawer?'], a), z3.Select(w['bridge_rollup?'], a)),
                   z3.Implies(z3.Select(w['bridge_sudo?'], a), z3.Select(w['bridge_rollup?'], a)))
+
+
+# ---------------------------------------------------------------------------------------------------------------------
+# Ics20Withdrawal: IBC packet plumbing (penumbra) as oracles
+IS_SOURCE = z3.Function('withdrawal_is_source', z3.BitVecSort(256), z3.BitVecSort(256), z3.BitVecSort(256), z3.BoolSort())
+
+
+def ics20_hooks(W_holder):
+    from mirsym import models as M
+    from mirsym.engine import ok, err
+
+    def h_packet_getter(ctx):
+        pkt = ctx.ex.deref_val(ctx.st, ctx.args[0])
+        name = ctx.name.rsplit('::', 1)[1]
+        r = Ref(('field', pkt, ('getter', name, ctx.ret_ty.lstrip('&').strip())))
+        ctx.ex.read(ctx.st, r.loc)
+        return [(None, r if ctx.ret_ty.strip().startswith('&') else ctx.ex.read(ctx.st, r.loc))]
+
+    def h_packet_new(ctx):
+        pkt = Obj('penumbra_ibc::IBCPacket<Unchecked>')
+        pkt.fields[('getter', 'source_port')] = ctx.args[0]; pkt.fields[('getter', 'source_channel')] = ctx.args[1]
+        return [(None, pkt)]
+
+    def h_send_check(ctx):
+        st = ctx.st
+        okv = z3.Bool('send_packet_check_ok'); pkt = ctx.args[1]
+        st.log.append(('send_packet_check', okv))
+        return [(None, M.thunk_future(lambda ex, s2, fut: [(okv, (lambda s3: ok(s3.tr(pkt)))), (z3.Not(okv), (lambda s3: err()))]))]
+
+    def h_send_execute(ctx):
+        ctx.st.log.append(('send_packet_execute',))
+        return [(None, M.thunk_future(lambda ex, s2, fut: [(None, ())]))]
+
+    def h_is_source(ctx):
+        W = W_holder[0]
+        return [(None, IS_SOURCE(W.ident(ctx.st, ctx.args[0]), W.ident(ctx.st, ctx.args[1]), W.asset(ctx.st, ctx.args[2])))]
+    clone_same = lambda ctx: [(None, ctx.ex.copy_val(ctx.ex.deref_val(ctx.st, ctx.args[0])))]
+    return [(re.compile(r'IBCPacket::<.*>::(source_port|source_channel|timeout_height|timeout_timestamp|data)$'), h_packet_getter),
+            (re.compile(r'IBCPacket::<.*>::new$'), h_packet_new), (re.compile(r'SendPacketRead.*>::send_packet_check'), h_send_check),
+            (re.compile(r'SendPacketWrite.*>::send_packet_execute'), h_send_execute), (re.compile(r'(^|::)is_source$'), h_is_source),
+            (re.compile(r'^<(ibc_types::core::channel::)?(PortId|ChannelId) as Clone>::clone$|anyhow_to_eyre'), clone_same)]
+
+
+def ics20_engine():
+    holder = [None]
+    ex, W = engine(extra_hooks=ics20_hooks(holder))
+    holder[0] = W
+    return ex, W
+
+
+def mk_ics20_self(ex, with_bridge):
+    me = Obj('CheckedIcs20Withdrawal')
+    a = ex.adts.lookup('CheckedIcs20Withdrawal')
+    if not a:
+        raise Inconclusive('CheckedIcs20Withdrawal not in ADT table')
+    wa = z3.BitVec('withdrawal_address', 160); signer = z3.BitVec('tx_signer', 160)
+    me.fields[(None, a['fields'].index('withdrawal_address'))] = wa
+    me.fields[(None, a['fields'].index('tx_signer'))] = signer
+    opt = Obj('std::option::Option<(Address, Ics20WithdrawalFromRollup)>')
+    info = None
+    if with_bridge:
+        baddr = Obj('astria_core::primitive::v1::Address'); memo = Obj('astria_core::protocol::memos::v1::Ics20WithdrawalFromRollup')
+        opt.discr = 'Some'; opt.fields[('Some', 0)] = (baddr, memo)
+        info = (baddr, memo)
+    else:
+        opt.discr = 'None'
+    me.fields[(None, a['fields'].index('bridge_address_and_rollup_withdrawal'))] = opt
+    return me, wa, signer, info
